@@ -35,6 +35,11 @@ type StressParams struct {
 	Delays   bool
 	Porc     bool // also check the recorded history with porcupine
 	Filler   int  // unchecked filler keys per batch (bigger segments => longer deferred sorts and merges)
+	// ChildOnly: about a third of the batches (never a writer's last one)
+	// hold no top-level operation at all, only child batches; the prefix a
+	// snapshot shows for a writer is then the largest marker over the
+	// top-level collection and the child collections.
+	ChildOnly bool `json:",omitempty"`
 }
 
 // wstate is the projection of the content on one writer's keys.
@@ -55,6 +60,17 @@ type stressModel struct {
 	states [][]*wstate // [writer][prefix]
 }
 
+// topMarker is the value of writer w's top-level marker after pn batches
+// (differs from pn only with ChildOnly batches).
+func (m *stressModel) topMarker(w int, pn int64) int64 {
+	v, ok := m.states[w][pn].top["m"]
+	if !ok {
+		return 0
+	}
+	n, _ := strconv.Atoi(v)
+	return int64(n)
+}
+
 func wkey(w int, suffix string) []byte { return []byte(fmt.Sprintf("w%d/%s", w, suffix)) }
 
 // batchOps describes batch number pn (1-based) of writer w.
@@ -66,8 +82,14 @@ type sop struct {
 
 func (m *stressModel) batchOps(w, pn int) (top []sop, child [][]sop) {
 	seed := int(m.p.Seed % 1000003)
-	top = append(top, sop{"m", true, strconv.Itoa(pn)})
-	for j := 0; j < m.p.Keys; j++ {
+	childOnly := m.p.ChildOnly && m.p.Children > 0 && pn < m.p.Batches && h3(seed+w, pn, 999)%3 == 0
+	forced := -1
+	if childOnly {
+		forced = int(h3(seed+w, pn, 998) % uint64(m.p.Children))
+	} else {
+		top = append(top, sop{"m", true, strconv.Itoa(pn)})
+	}
+	for j := 0; j < m.p.Keys && !childOnly; j++ {
 		switch h3(seed+w, pn, j) % 4 {
 		case 0, 1:
 			top = append(top, sop{"k" + strconv.Itoa(j), true, fmt.Sprintf("%d.%d", pn, j)})
@@ -77,7 +99,7 @@ func (m *stressModel) batchOps(w, pn int) (top []sop, child [][]sop) {
 	}
 	child = make([][]sop, m.p.Children)
 	for c := 0; c < m.p.Children; c++ {
-		if h3(seed+w, pn, 100+c)%2 == 0 {
+		if h3(seed+w, pn, 100+c)%2 == 0 && c != forced {
 			continue
 		}
 		child[c] = append(child[c], sop{"m", true, strconv.Itoa(pn)})
@@ -304,17 +326,25 @@ func runStress(p StressParams, scratch string, idx int) *StressResult {
 	// ---------------------------------------------------------------- readers
 	sufs := m.suffixes()
 	checkProjection := func(proc int, w int, get func(child int, suffix string) (string, bool, error), full bool, lo, hi int64, lastP *int64, call, ret int64, what string) bool {
-		mv, ok, err := get(-1, "m")
-		if err != nil {
-			setFail("read-error", what+": "+err.Error())
-			return false
-		}
 		pn := 0
-		if ok {
-			pn, err = strconv.Atoi(mv)
+		for c := -1; c < p.Children; c++ {
+			if c >= 0 && !p.ChildOnly {
+				break // the top-level marker alone names the prefix
+			}
+			mv, ok, err := get(c, "m")
 			if err != nil {
-				setFail("garbage-marker", fmt.Sprintf("%s: writer %d marker %q", what, w, mv))
+				setFail("read-error", what+": "+err.Error())
 				return false
+			}
+			if ok {
+				x, err := strconv.Atoi(mv)
+				if err != nil {
+					setFail("garbage-marker", fmt.Sprintf("%s: writer %d marker %q", what, w, mv))
+					return false
+				}
+				if x > pn {
+					pn = x
+				}
 			}
 		}
 		if pn < 0 || pn > p.Batches {
@@ -359,6 +389,9 @@ func runStress(p StressParams, scratch string, idx int) *StressResult {
 			}
 			return true
 		}
+		if p.ChildOnly && !chk(-1, "m") {
+			return false
+		}
 		if full {
 			for _, s := range sufs[1:] {
 				if !chk(-1, s) {
@@ -380,6 +413,11 @@ func runStress(p StressParams, scratch string, idx int) *StressResult {
 			if p.Children > 0 {
 				if !chk(int(call)%p.Children, "m") || !chk(int(call)%p.Children, sufs[j]) {
 					return false
+				}
+				for c := 0; c < p.Children && p.ChildOnly; c++ {
+					if !chk(c, "m") {
+						return false
+					}
 				}
 			}
 		}
@@ -539,6 +577,10 @@ func runStress(p StressParams, scratch string, idx int) *StressResult {
 				pn := 0
 				if v != nil {
 					pn, _ = strconv.Atoi(string(v))
+				}
+				if p.ChildOnly {
+					// the top-level marker moves only with batches that touch the top level
+					lo, hi = m.topMarker(w, lo), m.topMarker(w, hi)
 				}
 				if int64(pn) < lo {
 					setFail("returned-batch-not-visible", fmt.Sprintf("Collection.Get: writer %d marker %d but batch %d had returned before the call", w, pn, lo))
